@@ -2,8 +2,11 @@ package main
 
 import (
 	"fmt"
+	"io"
 	"net/http"
 	"net/http/httptest"
+	"regexp"
+	"strconv"
 	"strings"
 	"sync"
 	"sync/atomic"
@@ -168,5 +171,217 @@ func execC09ES(t *hx.Toks) string {
 	wr("c", ctl.main)
 	wr("C", ctl.dq)
 	ctl.mu.Unlock()
+	return sb.String()
+}
+
+// c09.esdq <retry> <batchsize> <nbatches> (<fail>)*nbatches
+//
+// The real elasticsearch output behind a real Router with a dead-queue output whose Out BLOCKS on its
+// first call (a dead queue that is busy flushing) while several later main batches follow, some of
+// them succeeding. Batch k holds the events k*batchsize+1 … (k+1)*batchsize; the endpoint answers 500
+// to every request carrying a batch with fail = 1 and 200 otherwise. One main worker (one Batch
+// object: the failed batch's backing array is reused by the following batches).
+// Result: `f <n> ids…` events received by the dead-queue Out, in call order (0 = nil event),
+//         `c <n> ids…` events committed through the main output, `C <n> ids…` committed by the dead queue.
+
+func init() {
+	execs["c09.esdq"] = execC09ESDQ
+}
+
+type esSlowDQ struct {
+	mu      sync.Mutex
+	ids     []uint64
+	commits []uint64
+	ctl     pipeline.OutputPluginController
+	first   sync.Once
+	release chan struct{}
+	entered chan struct{}
+}
+
+func (p *esSlowDQ) Start(_ pipeline.AnyConfig, params *pipeline.OutputPluginParams) {
+	p.ctl = params.Controller
+}
+func (p *esSlowDQ) Stop() {}
+func (p *esSlowDQ) Out(ev *pipeline.Event) {
+	p.first.Do(func() {
+		close(p.entered)
+		select {
+		case <-p.release:
+		case <-time.After(5 * time.Second):
+		}
+	})
+	p.mu.Lock()
+	defer p.mu.Unlock()
+	if ev == nil {
+		p.ids = append(p.ids, 0)
+		return
+	}
+	p.ids = append(p.ids, uint64(ev.Offset))
+	p.commits = append(p.commits, uint64(ev.Offset)) // a synchronous dead queue: the event is committed here
+}
+
+type esMainCtl struct {
+	mu   sync.Mutex
+	main []uint64
+}
+
+func (c *esMainCtl) Commit(ev *pipeline.Event) {
+	c.mu.Lock()
+	if ev == nil {
+		c.main = append(c.main, 0)
+	} else {
+		c.main = append(c.main, uint64(ev.Offset))
+	}
+	c.mu.Unlock()
+}
+func (c *esMainCtl) Error(string) {}
+
+var esIDRe = regexp.MustCompile(`"id":(\d+)`)
+
+func execC09ESDQ(t *hx.Toks) string {
+	retry, bsize, nb := t.Int(), t.Int(), t.Int()
+	if t.Err != nil || retry < 0 || retry > 3 || bsize < 1 || bsize > 16 || nb < 1 || nb > 16 {
+		return "bad-case"
+	}
+	fails := make([]bool, nb)
+	nOK := 0
+	for i := range fails {
+		fails[i] = t.Bool()
+		if !fails[i] {
+			nOK += bsize
+		}
+	}
+	if t.Err != nil || !t.Done() {
+		return "bad-case"
+	}
+	srv := httptest.NewServer(http.HandlerFunc(func(w http.ResponseWriter, r *http.Request) {
+		body, _ := io.ReadAll(r.Body)
+		code := http.StatusOK
+		if m := esIDRe.FindSubmatch(body); m != nil {
+			id, _ := strconv.Atoi(string(m[1]))
+			if k := (id - 1) / bsize; k >= 0 && k < nb && fails[k] {
+				code = http.StatusInternalServerError
+			}
+		}
+		w.WriteHeader(code)
+		if code == http.StatusOK {
+			_, _ = w.Write([]byte(`{"took":1,"errors":false,"items":[]}`))
+		}
+	}))
+	defer srv.Close()
+	config := &elasticsearch.Config{
+		Endpoints:         []string{srv.URL},
+		BatchSize:         cfg.Expression(fmt.Sprint(bsize)),
+		WorkersCount:      "1",
+		Retention:         "1ms",
+		BatchFlushTimeout: "1h",
+	}
+	if err := cfg.SetDefaultValues(config); err != nil {
+		return "err-config"
+	}
+	config.Retry = retry
+	if err := cfg.Parse(config, map[string]int{"gomaxprocs": 1, "capacity": 64}); err != nil {
+		return "err-config"
+	}
+	ctl := &esMainCtl{}
+	dqP := &esSlowDQ{release: make(chan struct{}), entered: make(chan struct{})}
+	plugin := &elasticsearch.Plugin{}
+	router := pipeline.NewRouter()
+	router.SetOutput(&pipeline.OutputPluginInfo{PluginStaticInfo: &pipeline.PluginStaticInfo{Type: "elasticsearch", Config: config},
+		PluginRuntimeInfo: &pipeline.PluginRuntimeInfo{Plugin: plugin, ID: "es"}})
+	router.SetDeadQueueOutput(&pipeline.OutputPluginInfo{PluginStaticInfo: &pipeline.PluginStaticInfo{Type: "dq"},
+		PluginRuntimeInfo: &pipeline.PluginRuntimeInfo{Plugin: dqP, ID: "dq"}})
+	router.Start(&pipeline.OutputPluginParams{
+		PluginDefaultParams: pipeline.PluginDefaultParams{PipelineName: "verif",
+			PipelineSettings: &pipeline.Settings{AvgEventSize: 64},
+			MetricCtl:        metric.NewCtl("", prometheus.NewRegistry(), time.Minute, 0)},
+		Controller: ctl, Router: router, Logger: zap.NewNop().Sugar()})
+	n := nb * bsize
+	roots := make([]*insaneJSON.Root, n)
+	for i := range roots {
+		root, err := insaneJSON.DecodeString(fmt.Sprintf(`{"id":%d}`, i+1))
+		if err != nil {
+			return "err-json"
+		}
+		roots[i] = root
+	}
+	addDone := make(chan struct{})
+	go func() {
+		defer close(addDone)
+		for i := 0; i < n; i++ {
+			ev := mkEvent(&evSpec{id: uint64(i + 1), size: 8})
+			ev.Root = roots[i]
+			router.Out(ev)
+		}
+	}()
+	// hold the dead queue's first Out until the main output has gone through everything it can reach
+	// without it (all events of the succeeding batches committed), at most 80 ms
+	go func() {
+		select {
+		case <-dqP.entered:
+		case <-time.After(20 * time.Second):
+			return
+		}
+		deadline := time.Now().Add(80 * time.Millisecond)
+		for time.Now().Before(deadline) {
+			ctl.mu.Lock()
+			done := len(ctl.main) >= nOK
+			ctl.mu.Unlock()
+			if done {
+				time.Sleep(2 * time.Millisecond)
+				break
+			}
+			time.Sleep(200 * time.Microsecond)
+		}
+		close(dqP.release)
+	}()
+	// settle: all adds issued, then no new dead-queue call / commit for a while
+	select {
+	case <-addDone:
+	case <-time.After(20 * time.Second):
+		return "panic:stuck"
+	}
+	last, lastChange := -1, time.Now()
+	for time.Since(lastChange) < 60*time.Millisecond {
+		ctl.mu.Lock()
+		dqP.mu.Lock()
+		cur := len(ctl.main) + len(dqP.ids)
+		dqP.mu.Unlock()
+		ctl.mu.Unlock()
+		if cur != last {
+			last, lastChange = cur, time.Now()
+		}
+		if cur >= n && time.Since(lastChange) > 15*time.Millisecond {
+			break
+		}
+		time.Sleep(time.Millisecond)
+	}
+	stopped := make(chan struct{})
+	go func() { router.Stop(); close(stopped) }()
+	select {
+	case <-stopped:
+	case <-time.After(10 * time.Second):
+		return "panic:stuck"
+	}
+	var sb strings.Builder
+	wr := func(tag string, ids []uint64) {
+		if sb.Len() > 0 {
+			sb.WriteByte(' ')
+		}
+		fmt.Fprintf(&sb, "%s %d", tag, len(ids))
+		for _, id := range ids {
+			fmt.Fprintf(&sb, " %d", id)
+		}
+	}
+	dqP.mu.Lock()
+	ctl.mu.Lock()
+	wr("f", dqP.ids)
+	wr("c", ctl.main)
+	wr("C", dqP.commits)
+	ctl.mu.Unlock()
+	dqP.mu.Unlock()
+	for _, r := range roots {
+		insaneJSON.Release(r)
+	}
 	return sb.String()
 }
